@@ -58,7 +58,7 @@ WaitAllEnd == /\ waiting.on /\ waiting.next > Len(waiting.snap)
               /\ UNCHANGED <<task, waited, nl, pend>>
 \* `wait %n`: Job::wait for one job; the job stays in the table until a later sweep / poll
 WaitOne(t) == /\ ~waiting.on /\ pend = 0 /\ \E i \in 1..Len(jobs) : jobs[i].tok = t
-              /\ task[t] = "ended" /\ t \notin waited
+              /\ task[t] = "ended"                       \* (waiting again for an already awaited job returns at once)
               /\ waited' = waited \cup {t} /\ UNCHANGED <<jobs, task, waiting, nl, pend>>
 \* JobManager::poll between commands (interactive / stdin loop): drop jobs that have completed
 Poll(t) == /\ PollEnabled /\ ~waiting.on /\ pend = 0
